@@ -15,7 +15,8 @@ package main
 //   - resLoadKey: the argument of SessionCache.Get in loadSession; resLoadVerifiesCerts: whether
 //     loadSession refuses (returns no session) when the recorded certificates do not verify;
 //     resLoadClones: whether the handshake gets its own copy of the cached session (F40);
-//   - resServerGuards: the conditions under which checkForResumption returns false, in order;
+//   - resServerGuards: the conditions under which checkForResumption returns false, in order
+//     (INFORMATIONAL since the translation tie Tie/ResumeDecision.lean; never "missing");
 //   - resClientResumedExpr: the expression returned by serverResumedSession; resClientChecks:
 //     the conditions of the error returns that follow it in processServerHello;
 //   - resSessionIdLen / resSessionIdFromRand: `hs.hello.sessionId = make([]byte, N)` filled by
@@ -236,11 +237,12 @@ func emitResumption(e *emitter, p *pkg) {
 			endsTrue = len(s.Results) == 1 && p.src(s.Results[0]) == "true"
 		}
 	}
+	// informational since the translation tie (checkForResumption is translated to Lean on every run and
+	// lean/Gotlcp/Tie/ResumeDecision.lean proves when the translated text answers true and that its decision is the
+	// model's): not pinned by C10_facts, never "missing" — a renamed local or a re-arranged guard must not fail
+	// every property's check
 	e.strList("resServerGuards", guards)
 	e.boolean("resServerGuardsEndTrue", endsTrue)
-	if len(guards) == 0 {
-		miss("resServerGuards")
-	}
 
 	// serverResumedSession: returned expression
 	expr := ""
